@@ -5,7 +5,8 @@ import json, re
 import z3
 from .executor import Unsupported, Exec
 from .values import *
-from .models import MODELS, uf
+from .models import MODELS, uf, ok, err, some, NONE, deref
+from .executor import PathPanic
 from .models_hash import HMODELS
 from .models_sign import SMODELS, REDUCE, VERIFY, POINT_VALID, B256, SIGBV
 from .txmodel import Ctx, sym_bytes
@@ -316,3 +317,200 @@ def q_ecdsa_glue(env, name=None):
 def ex_items_nonempty(seq):
     s = z3.simplify(seq)
     return not (z3.is_app(s) and s.decl().kind() == z3.Z3_OP_SEQ_EMPTY)
+
+
+# ----------------------------------------------------------------------------- public-key recovery glue (C06 / C12)
+def q_recover_glue(env, name=None):
+    """Signature::get_public_key / get_public_key_from_digest from MIR with the recovery primitive and the SEC1 encoder as
+    uninterpreted functions.  Decided: without recovery info -> Err; the recovery primitive gets this signature, the recovery id
+    (is_y_odd, is_x_reduced) stored in the signature and the digest of exactly the message under the requested hash (or the caller's
+    32-byte digest, other lengths refused); the returned PublicKey is the SEC1 encoding of the recovered point in the form the
+    signature's key-compression marker says (compressed iff is_pubkey_compressed), so that HASH160 of it is the signer's address hash
+    for either key form."""
+    import re as _re
+    from .models_hash import _call
+    from .models_sign import record, _units, SIGBV
+    qr = QResult(name or "recover_glue")
+    P = env.P
+    base = [m for m in MODELS if not m[1].__name__.startswith(("m_sha256", "m_sha256d", "m_hash160", "m_sha512", "m_ripemd160", "m_sha1"))]
+    S = P.structs
+    RECOVER = lambda sig, y, x, z: uf("ECDSA_RECOVER", SIGBV, z3.BoolSort(), z3.BoolSort(), B256, B256)(sig, y, x, z)
+    RECOVER_OK = lambda sig, y, x, z: uf("ECDSA_RECOVER_OK", SIGBV, z3.BoolSort(), z3.BoolSort(), B256, z3.BoolSort())(sig, y, x, z)
+
+    def bterm(v):
+        v = deref(v)
+        return v.t if isinstance(v, Bool) else (v.t != 0)
+
+    def m_recid_new(ex, a, callee, canon):
+        return Opaque("RecoveryId", (bterm(a[0]), bterm(a[1])))
+
+    def recover(ex, rs, z):
+        sig, (y, x) = rs.payload
+        record(ex, "recover", sig=sig, y=y, x=x, z=z)
+        if ex.decide(RECOVER_OK(sig, y, x, z)):
+            return ok(Opaque("VerifyingKey", RECOVER(sig, y, x, z)))
+        return err("ecdsa::Error")
+
+    def m_recover_digest(ex, a, callee, canon):
+        dv = deref(a[1])
+        out = _call(ex, f"<{dv.name} as FixedOutput>::finalize_fixed", [dv])
+        return recover(ex, deref(a[0]), z3.Concat(*_units(ex, out)))
+
+    def m_recover_digest_bytes(ex, a, callee, canon):
+        items = _units(ex, a[1])
+        if len(items) != 32:
+            raise PathPanic("GenericArray::from_slice: length mismatch")
+        return recover(ex, deref(a[0]), z3.Concat(*items))
+
+    def m_ga_from_slice(ex, a, callee, canon):
+        items = _units(ex, a[0])
+        if len(items) != 32:
+            raise PathPanic("GenericArray::from_slice: length mismatch")
+        return a[0]
+
+    def m_vk_to_encoded_point(ex, a, callee, canon):
+        vk = deref(a[0])
+        flag = bterm(a[1])
+        record(ex, "encode", flag=flag, point=vk.payload)
+        if ex.decide(flag):
+            return Opaque("EncodedPoint", Bytes(seq_of(be_bytes(uf("SEC1_COMPRESSED", B256, z3.BitVecSort(264))(vk.payload), 33))))
+        return Opaque("EncodedPoint", Bytes(seq_of(be_bytes(uf("SEC1_UNCOMPRESSED", B256, z3.BitVecSort(520))(vk.payload), 65))))
+
+    def m_opaque_string(ex, a, callee, canon):
+        return Opaque("String")
+
+    def m_vk_to_bytes(ex, a, callee, canon):
+        # k256's VerifyingKey::to_bytes is the COMPRESSED SEC1 form whatever the caller wanted
+        vk = deref(a[0])
+        record(ex, "encode", flag=z3.BoolVal(True), point=vk.payload)
+        return Bytes(seq_of(be_bytes(uf("SEC1_COMPRESSED", B256, z3.BitVecSort(264))(vk.payload), 33)))
+
+    def m_err_new(ex, a, callee, canon):
+        return Opaque("ecdsa::Error")
+    R = _re.compile
+    CM = [(R(r"VerifyingKey::to_bytes$"), m_vk_to_bytes), (R(r"^ecdsa::Error::new$|^signature::Error::new$"), m_err_new), (R(r"^RecoveryId::new$"), m_recid_new), (R(r"recover_verify_key_from_digest$"), m_recover_digest), (R(r"recover_verify_key_from_digest_bytes$"), m_recover_digest_bytes),
+          (R(r"GenericArray<.*>::from_slice$|GenericArray::from_slice$"), m_ga_from_slice), (R(r"VerifyingKey::to_encoded_point$|ToEncodedPoint(<.*>)?>::to_encoded_point$"), m_vk_to_encoded_point),
+          (R(r"to_der_hex$"), m_opaque_string)]
+    from .models_ecies import m_point_is_compressed, m_point_as_bytes, m_encoded_point_from_bytes, m_from_sec1
+    PM = [(R(r"(^|::)EncodedPoint::is_compressed$"), m_point_is_compressed), (R(r"(^|::)EncodedPoint::as_bytes$"), m_point_as_bytes)]
+    _nat = {}
+
+    def report(what, needle=None):
+        if len(qr.violations) >= MAX_VIOLATIONS or any(v["message"] == what for v in qr.violations):
+            return
+        if "r" not in _nat:
+            ops = [{"op": "bsm_verify", "key": (b"\x00" * 31 + b"\xa7").hex(), "compressed": c, "message": b"verif".hex(), "prefix": 0} for c in (True, False)]
+            ops += native_ecdsa()[0]["ops"]
+            req = {"tx": {"version": 1, "locktime": 0, "inputs": [], "outputs": []}, "ops": ops}
+            _nat["r"] = (req, {p: C.Native.run(req, p) for p in ("debug", "release")})
+        req, nat = _nat["r"]
+        probs = []
+        for v in nat.values():
+            for i, o in enumerate(v):
+                if i < 2:
+                    if o.get("ok") is not True:
+                        probs.append(f"bsm_verify ({'compressed' if i == 0 else 'uncompressed'} key): {json.dumps(o)[:120]}")
+                else:
+                    probs += [p for p in (o.get("ok", {}).get("problems", []) if isinstance(o.get("ok"), dict) else ["tool: " + json.dumps(o)[:120]]) if "recover" in p]
+        probs = sorted(set(probs))
+        item = {"message": what, "request": req, "op_index": 0, "expected": {"bsm_verify": True, "problems": []}, "native": {"problems": probs[:8]}, "reproduced": bool(probs)}
+        if probs:
+            qr.violations.append(item)
+        else:
+            qr.undecided.append(what + " — not reproduced natively")
+
+    def sat(pc, *extra):
+        st = {}
+        r = SE.check_sat(list(pc), list(extra), st)
+        qr.queries += st.get("queries", 0)
+        qr.solver_s += st.get("solver_s", 0.0)
+        if r == z3.unknown:
+            qr.undecided.append("solver unknown")
+        return r
+    SHA = lambda s: z3.Concat(*be_bytes(uf("SHA256", SEQ, B256)(s), 32)) if False else uf("SHA256", SEQ, B256)(s)
+    cases = [("get_public_key", "signature::Signature::get_public_key", algo, has_rec) for algo in ("Sha256", "Sha256d") for has_rec in (True, False)]
+    cases += [("get_public_key_from_digest", "signature::Signature::get_public_key_from_digest", n, True) for n in (32, 31, 33, 0)]
+    for what, callsite, par, has_rec in cases:
+        label = f"{what} ({'hash ' + par if isinstance(par, str) else 'digest of ' + str(par) + ' bytes'}, recovery info {'present' if has_rec else 'absent'})"
+        try:
+            fn = env.fn(callsite)
+        except Unsupported as e:
+            qr.undecided.append(f"{label}: {e}")
+            continue
+        qr.cases += 1
+        ex = Exec(P, CM + PM + SMODELS + HMODELS + base)
+
+        def setup(ex, par=par, has_rec=has_rec, what=what):
+            ctx = Ctx()
+            ctx.sig = z3.BitVec("sig_rs", 768)
+            ctx.y, ctx.x, ctx.c = z3.Bool("rec_y_odd"), z3.Bool("rec_x_reduced"), z3.Bool("rec_key_compressed")
+            ri = Struct("RecoveryInfo", [None] * 3)
+            for k, v in (("is_y_odd", ctx.y), ("is_x_reduced", ctx.x), ("is_pubkey_compressed", ctx.c)):
+                ri.f[S["RecoveryInfo"].index(k)] = Bool(v)
+            sg = Struct("Signature", [None] * 2)
+            sg.f[S["Signature"].index("sig")] = Opaque("EcdsaSig", ctx.sig)
+            sg.f[S["Signature"].index("recovery")] = some(ri) if has_rec else (NONE() if callable(NONE) else NONE)
+            if what == "get_public_key":
+                ctx.msg, ctx.msgL = sym_bytes(ex, ctx, "message")
+                return fn, [Ptr([sg], 0), Ptr([Bytes(ctx.msg)], 0), Enum("SigningHash", par, P.enums["SigningHash"][par])], ctx
+            ctx.digest = [z3.BitVec(f"digest_{i}", 8) for i in range(par)]
+            return fn, [Ptr([sg], 0), Ptr([Bytes(seq_of(ctx.digest))], 0)], ctx
+        try:
+            results = ex.explore(setup)
+        except Unsupported as e:
+            qr.undecided.append(f"{label}: {e}")
+            continue
+        n_ok = 0
+        for r in results:
+            qr.paths += 1
+            c = r.ctx
+            if r.kind == "panic":
+                report(f"{label}: panics: {r.msg.split(' @')[0][:80]}")
+                continue
+            if r.kind != "ok":
+                qr.undecided.append(f"{label}: {r.kind}")
+                continue
+            rec = [kw for nm, kw in getattr(r, "recorded", []) if nm == "recover"]
+            enc = [kw for nm, kw in getattr(r, "recorded", []) if nm == "encode"]
+            wellformed = has_rec and (what == "get_public_key" or par == 32)
+            if r.ret.variant == "Ok":
+                n_ok += 1
+                if not wellformed:
+                    report(f"{label}: returns a key although the recovery info is missing or the digest is not 32 bytes")
+                    continue
+                if len(rec) != 1 or len(enc) != 1:
+                    report(f"{label}: returns a key without exactly one recovery and one encoding step")
+                    continue
+                k = rec[0]
+                if what == "get_public_key":
+                    h1 = uf("SHA256", SEQ, B256)(c.msg)
+                    want_z = h1 if par == "Sha256" else uf("SHA256", SEQ, B256)(seq_of(be_bytes(h1, 32)))
+                else:
+                    want_z = z3.Concat(*c.digest)
+                if sat(r.pc, k["sig"] != c.sig) != z3.unsat:
+                    report(f"{label}: the recovery runs on another signature value")
+                if sat(r.pc, z3.Or(k["y"] != c.y, k["x"] != c.x)) != z3.unsat:
+                    report(f"{label}: the recovery id handed to the primitive is not (is_y_odd, is_x_reduced) of the signature", "recover")
+                if sat(r.pc, k["z"] != want_z) != z3.unsat:
+                    report(f"{label}: the digest handed to the recovery is not the requested hash of exactly the message (or the caller's digest)", "recover")
+                if sat(r.pc, enc[0]["flag"] != c.c) != z3.unsat:
+                    report(f"{label}: the recovered key is not encoded in the form the signature's key-compression marker states (an uncompressed signer's key comes back compressed or vice versa, so its HASH160 is not the signer's address)")
+                if sat(r.pc, enc[0]["point"] != RECOVER(c.sig, c.y, c.x, want_z)) != z3.unsat:
+                    report(f"{label}: the encoded point is not the recovered point")
+                # the returned PublicKey holds exactly the encoder's bytes
+                pk = r.ret.f[0]
+                pts = ex.seq_items(pk.f[S["PublicKey"].index("point")].s)
+                want_pts = be_bytes(uf("SEC1_COMPRESSED", B256, z3.BitVecSort(264))(enc[0]["point"]), 33) if pts is not None and len(pts) == 33 else be_bytes(uf("SEC1_UNCOMPRESSED", B256, z3.BitVecSort(520))(enc[0]["point"]), 65)
+                if pts is None or len(pts) != len(want_pts) or sat(r.pc, z3.Or(*[p != q for p, q in zip(pts, want_pts)])) != z3.unsat:
+                    report(f"{label}: the returned PublicKey does not hold the encoded point's bytes")
+            else:
+                # rejection is allowed only when the primitive fails, the encoding is refused, or the call is ill-formed
+                if wellformed and rec and sat(r.pc, RECOVER_OK(rec[0]["sig"], rec[0]["y"], rec[0]["x"], rec[0]["z"])) == z3.unsat:
+                    continue
+                if wellformed and not rec:
+                    report(f"{label}: refuses without attempting the recovery")
+        if (has_rec and (what == "get_public_key" or par == 32)) and n_ok == 0:
+            qr.undecided.append(f"{label}: no accepting path (vacuous)")
+        finish(qr, ex)
+    qr.samples.append({"obligation": qr.name, "entry_points": ["Signature::get_public_key", "Signature::get_public_key_from_digest"]})
+    return qr
